@@ -710,6 +710,11 @@ def run_child(design, hashseed, pad, ndummy=0, times=1, sweep=0):
         raise C02MachineryError(f"child for {design!r} exited {p.returncode}: {p.stderr.decode()[-2000:]}")
     doc = json.loads(p.stdout.decode())
     if not doc.get("ok"):
+        # an exception raised inside the code under test (last frame outside /verif) for a design that is legal FHDL is the code's fault,
+        # not the harness's: reported as a violation by run_design
+        frames = re.findall(r'File "([^"]+)", line \d+', doc.get("error") or "")
+        if frames and not frames[-1].startswith(verif + os.sep):
+            return dict(design=design, ok=False, convert_error=(doc.get("error") or "").strip().split("\n")[-1], last_frame=frames[-1], traceback=doc.get("error"))
         raise C02MachineryError(f"design {design!r} does not elaborate/convert: {doc.get('error')}")
     return doc
 
@@ -797,6 +802,12 @@ def run_design(cfg, seed):
     order = HASHSEEDS[::-1] if seed % 2 else HASHSEEDS
     sweep = DUID_SWEEP["thorough" if TIER[0] == "thorough" else "quick"]
     docs = [run_child(design, hs, pad, 0, 2 if i == 0 else 1, sweep if i == 0 else 0) for i, (hs, pad) in enumerate(order)]
+    bad = [d for d in docs if not d.get("ok")]
+    if bad:
+        v = dict(rule="netlist.convert_raises", msg=f"building / converting this legal design raises inside the code under test ({bad[0]['last_frame']}): {bad[0]['convert_error']}",
+                 detail=dict(design=design, traceback=bad[0]["traceback"][-3000:]),
+                 trace=[f"top, ios = checks.c02_designs.build({design!r})", "litex.gen.fhdl.verilog.convert(top, ios=ios, name='top')"])
+        return dict(cfg=name, exhaustive=True, violations=[v], evaluations=len(docs), distinct=1, sample=None, cover={})
     viol, cover, sample = analyse_netlist(docs[0])
     viol_b, cover_b, _ = analyse_netlist(docs[1])
     # (4) reproducibility: text, data files and the sequence of handed-out names
